@@ -6,6 +6,7 @@ E2  every edge of the quiescent quotient graph (spec/GateQ.tla) replayed on real
     compared (goroutine wait state inspection, no sleeps).
 """
 import json
+import re
 import os
 import shutil
 
@@ -150,17 +151,62 @@ def run(ctx):
                 "return value equal the specification's",
         "samples": rep.get("samples") or [],
     })
+    _stress(ctx)
     ctx.assumptions += [
         "a goroutine reported as [sync.Cond.Wait] by runtime.Stack is parked on the latch's condition variable",
         "counts explored: see cfg (0..3 and 65535); errors nil/e1/e2; arrivals bounded by 4 in the walk",
-        "the wake/re-test window of a waiter cannot be forced on the real latch; it is covered by TLC on Gate.tla",
+        "the wake/re-test window of a waiter is exercised by back-to-back operations (not forced); the state at each return is observed under the latch's lock",
     ]
     if not ctx.violations and rep["edges_covered"] != len(g.edges) and not ctx.known:
         raise Inconclusive("walk incomplete: %d of %d edges" % (rep["edges_covered"], len(g.edges)))
 
 
+def _stress(ctx, episodes=None, replay_dir=None):
+    """E3 for the window between the waking broadcast and the waiter's re-test: return observations of a stress run
+    (harness/gate/stress.go, hook core.VerifGateHook) validated by TLC against spec/Trace_GateReturn.tla"""
+    import shutil
+    import traceprep
+    episodes = episodes or (3000 if ctx.quick else 40000)
+    scratch = tlc.make_scratch("verif-gstress-")
+    ctx._tmp.append(scratch)
+    of = os.path.join(scratch, "obs.ndjson")
+    p = run_vh(["gatestress", "-seed", str(ctx.seed), "-reps", str(episodes), "-out", of], timeout=1200)
+    if p.returncode != 0 or not os.path.exists(of):
+        raise Inconclusive("gatestress driver failed rc=%s: %s" % (p.returncode, p.stderr[-1500:]))
+    obs = traceprep.load_ndjson(of)
+    if len(obs) < episodes:
+        raise Inconclusive("gatestress: %d return observations for %d episodes (hook not compiled in?)" % (len(obs), episodes))
+    # distinct observations are enough for the verdict; the first offending one (if any) is kept with its episode
+    seen, uniq = set(), []
+    for o in obs:
+        k = (o["arrived"], o["count"], o["canceled"])
+        if k not in seen:
+            seen.add(k)
+            uniq.append(o)
+    traceprep.write_ndjson(os.path.join(scratch, "trace.ndjson"), uniq)
+    r = tlc.run_tlc("Trace_GateReturn", "Trace_GateReturn.cfg", workers=1, timeout=300, scratch=scratch, dfs=True)
+    hws = [int(x) for x in re.findall(r'"hw", (\d+)', r.out)]
+    hw = max(hws) if hws else 1
+    rewoken = sum(1 for o in obs if not o["canceled"] and o["op"] in ("reset", "reset-twice", "setcount-up", "clear"))
+    log("E3 gate returns: %d episodes, %d return observations (%d distinct states), %d accepted" % (episodes, len(obs), len(uniq), hw - 1))
+    ctx.coverage["gate_return_observations"] = len(obs)
+    ctx.coverage["gate_return_distinct_states"] = len(uniq)
+    if hw != len(uniq) + 1:
+        bad = uniq[hw - 1]
+        rd = replay_dir or ctx.replay_dir("gate-return")
+        with open(os.path.join(rd, "replay.json"), "w") as f:
+            json.dump({"property": "C11", "engine": "gatestress", "seed": ctx.seed, "episodes": episodes, "observation": bad}, f, indent=1)
+        ctx.violation(rd, "AwaitGateCondition returned in a state in which its condition does not hold (arrived=%d, count=%d, canceled=%s; "
+                          "episode %d of the stress run, operation after the waking arrival: %s): not allowed by Gate!ReturnIsJustified"
+                      % (bad["arrived"], bad["count"], bad["canceled"], bad["episode"], bad["op"]))
+
+
 def replay(ctx, d, meta):
     build_harness()
+    if meta.get("engine") == "gatestress":
+        ctx.seed = int(meta.get("seed", 1))
+        _stress(ctx, episodes=int(meta.get("episodes", 3000)), replay_dir=d)
+        return
     rep = _replay_file(os.path.join(d, meta["walk"]), os.path.join(d, "report.rerun.json"), maxdiv=1)
     ctx.coverage.update({"states": 1, "transitions": rep["steps"], "traces_validated_against_impl": rep["paths"],
                          "samples": [meta.get("actions")]})
